@@ -7,6 +7,7 @@ import (
 	"fmt"
 	"math/rand/v2"
 	"net"
+	"reservoir/zzsim"
 	"strings"
 	"time"
 )
@@ -35,13 +36,34 @@ func genCertsPlan(r *rand.Rand) *ProxyPlan {
 	for i := 0; i < nhosts; i++ {
 		hosts = append(hosts, certHosts[r.IntN(len(certHosts))]+":"+certPorts[r.IntN(len(certPorts))])
 	}
+	if r.IntN(300) == 0 {
+		// many hosts: one client opens a tunnel to each of several hundred distinct hosts, one after
+		// the other, then comes back to the first ones (whatever the proxy keeps per host, and however
+		// it bounds that, every tunnel is owed its own host's certificate)
+		n := []int{300, 600, 1100}[r.IntN(3)]
+		var walk []PReq
+		for i := 0; i < n; i++ {
+			walk = append(walk, PReq{Res: 0, Target: "/m", HostHdr: fmt.Sprintf("h%d.many.example:443", i)})
+		}
+		for i := 0; i < 6; i++ {
+			walk = append(walk, PReq{Res: 0, Target: "/m", HostHdr: fmt.Sprintf("h%d.many.example:443", i*(n/7))})
+		}
+		p.Clients = [][]PReq{walk}
+		p.Pol = zzsim.Policy{Kind: "sticky", SwitchP: 0.02, Mute: "R6,R7", MaxSteps: 400000}
+		return p
+	}
 	// one client walks through time; optionally a burst of first tunnels at some instant
 	var walk []PReq
 	k := 2 + r.IntN(5)
 	idx := r.Perm(len(times))[:k]
 	sortInts(idx)
 	for _, ti := range idx {
-		walk = append(walk, PReq{Res: 0, Target: "/x", HostHdr: hosts[r.IntN(len(hosts))], AtMs: times[ti]})
+		q := PReq{Res: 0, Target: "/x", HostHdr: hosts[r.IntN(len(hosts))], AtMs: times[ti]}
+		if r.IntN(4) == 0 {
+			// the tunnel is granted, the TLS handshake starts a little later
+			q.HelloDelayMs = []int64{500, 2000, 5000}[r.IntN(3)]
+		}
+		walk = append(walk, q)
 	}
 	p.Clients = [][]PReq{walk}
 	if r.IntN(2) == 0 {
